@@ -1,8 +1,34 @@
 /- Property C05: the property theorems (and nothing else). -/
+import Frugal.Proofs.DecodeSafe
+import Frugal.Proofs.SkipCorrect
 import Frugal.Props.Instances
 namespace Frugal.C05
 open Frugal
+
 theorem count_checks_sound : Generated.params.validMinWire = true ∧ Generated.params.validMinWireFixed = true ∧
     Generated.params.validSkip = true :=
   ⟨Instances.valid_minWire, Instances.valid_minWireFixed, Instances.valid_skip⟩
+
+/-- For every schema, every byte string, every destination and every pool state: `DecodeObject`
+    (every Go read modelled as partial) never panics. The decoder's definition is accepted by Lean's
+    termination checker with the depth budget and the input length as only measures. -/
+theorem decode_never_panics (S : Schema) (sid : Nat) (b : Bytes) (dest : Val) :
+    (decodeM Generated.params S sid b dest).isPanic = false :=
+  decodeM_safe Instances.params_valid S sid b dest
+
+/-- the same at every nested position and with every remaining budget -/
+theorem decodeType_never_panics (S : Schema) (total fuel : Nat) (t : Ty) (b : Bytes) (dest : Val) :
+    (decodeType Generated.params S total fuel t b dest).isPanic = false :=
+  decodeType_safe Instances.params_valid S total fuel t b dest
+
+/-- on well-formed data the skipper returns exactly the length of what it skips (or a depth error):
+    it never runs past the value it was asked to skip -/
+theorem skipper_exact (v : TVal) (fuel : Nat) (r : Bytes) (hw : wf v = true) :
+    skipType Generated.params fuel v.tag (ser v ++ r) =
+      if skipNeed v ≤ fuel then .ok (ser v).length else .err .depth :=
+  skipType_ser Instances.params_valid v fuel r hw
+
+/-- witness that the `panic` outcome is not vacuous in the model: an unguarded fixed-size read of a
+    short buffer is a bounds panic (this is what the regenerated guards exclude) -/
+example : decodeFixed .i32 [1, 2] = .panic .bounds := by simp [decodeFixed, rd32]
 end Frugal.C05
